@@ -222,9 +222,14 @@ def run(rep, tier, rng):
         nfail += 1
         rep.violation({"kind": "oracle", "what": "Writer::from_path left the files %r" % (present,), "case_kind": "path"})
     rep.cov["path_pairs_side_by_side"] = 1
+    # ---- Writer::from_path / Reader::from_path against the directory model (Model/Paths.v; lib/pathmodel.py)
+    import pathmodel
+    import random
+    pathmodel.stage(rep, dev, random.Random(rep.seed * 7919 + 8), "c08p", 1, 500 if tier == "thorough" else 140)
     rep.cov["known_finding_F10_cases"] = f10
     rep.sample({"history": "".join(meta[17][0]), "alphabet": "a,b = acceptable pairs; x = shape of another type; m,t = rejected rows"})
     rep.cov["oracle"] = {"checked": len(cases), "failing": nfail}
     rep.assumptions += ["dbase (TableWriter, Reader, RecordIterator, seek) is modelled as an ordered row store, not verified",
-                        "files created and opened by path (Writer::from_path / Reader::from_path): one fixed scenario (two "
-                        "shapefiles side by side under dotted names), implementation only"]
+                        "files created and opened by path (Writer::from_path / Reader::from_path): which three files are created, "
+                        "truncated and opened is modelled (Model/Paths.v, C08_three_files, C08_files_of_two_shapefiles_disjoint, "
+                        "C08_open_after_write) and tied by the kind-16 correspondence; the bytes of the .dbf are dbase's"]
